@@ -11,4 +11,8 @@ def opJsonRoundTrip (j : Json) : R Json := do
 def opGobRoundTrip (j : Json) : R Json := do
   return renderItem (normG (← parseItem (← fld j "v")))
 
+/-- the model's answer for decoding a document that presents the value `v` -/
+def opDocDecode (j : Json) : R Json := do
+  return renderItem (normD (← parseItem (← fld j "v")))
+
 end Driver
